@@ -36,6 +36,7 @@ Fifth round: C11.1 a bucket whose record names a parent is attached to it on eve
 Sixth round: C11.1 a partition is registered under the label it carries; C11.2 the source of a time stamp is found by reaching definitions (the read may sit in a helper or a try block of its own).
 Seventh round: C11.2 Server.put / Server.restore do not test the server state themselves (the walk above them does), so a recorded placement on a server that is down at reload time is restored as recorded.
 Eighth round: C11.1 load_servers runs before load_allocations and load_apps (servers register trait codes that required traits are encoded with); C11.2 a recorded placement is given up without trying the normal placement only for a schedule-once instance.
+Ninth round: C11.2 the verbatim restore ignores the lease completely (shared with C01.6), and the presence stamp of a server is not rebound inside the walk over its records.
 Does NOT decide fidelity for all reachable stored states.
 """
 
